@@ -480,3 +480,48 @@ VARIANTS += [
     V('C11', 'twin: discard instead of remove', CR, "            if missing_symbol in unique_values:\n                unique_values.remove(missing_symbol)", "            unique_values.discard(missing_symbol)", expect='clean'),
     V('C11', 'twin: literal indicators', CR, "                        new_feature.append(str(1))\n                    else:\n                        new_feature.append(str(0))", "                        new_feature.append('1')\n                    else:\n                        new_feature.append('0')", expect='clean'),
 ]
+
+# ---------------------------------------------------------------- C19
+CCF = 'outrank/algorithms/synthetic_data_generators/cc_generator.py'
+GNF = 'outrank/algorithms/synthetic_data_generators/generator_naive.py'
+VARIANTS += [
+    V('C19', 'F12 reintroduced: strict ensure_rep guard', CCF, "if ensure_rep and len(vec) <= size:", "if ensure_rep and len(vec) < size:"),
+    V('C19', 'closing fill dropped', CCF, "            # Fill out the rest of the dataset\n            if ix < n_features:\n                for i in range(ix, n_features):", "            # Fill out the rest of the dataset\n            if False:\n                for i in range(ix, n_features):"),
+    V('C19', 'closing fill starts one late', CCF, "                for i in range(ix, n_features):", "                for i in range(ix + 1, n_features):"),
+    V('C19', 'gap fill without cursor advance', CCF, "                            X[ix] = x\n                            ix += 1\n\n                    x = self._configure_generate_feature(\n                        feature_attributes,\n                        n_samples,", "                            X[ix] = x\n\n                    x = self._configure_generate_feature(\n                        feature_attributes,\n                        n_samples,"),
+    V('C19', 'full loop skips last feature', CCF, "        if structure is None:\n            for i in range(n_features):", "        if structure is None:\n            for i in range(n_features - 1):"),
+    V('C19', 'dtype int64', CCF, "X = np.empty([n_features, n_samples], dtype='int32')", "X = np.empty([n_features, n_samples], dtype='int64')"),
+    V('C19', 'not transposed', CCF, "        return X.T\n", "        return X\n"),
+    V('C19', 'seed not applied', CCF, "        np.random.seed(seed)\n        X = np.empty", "        X = np.empty"),
+    V('C19', 'seed after first draws', CCF, "        np.random.seed(seed)\n        X = np.empty([n_features, n_samples], dtype='int32')\n", "        X = np.empty([n_features, n_samples], dtype='int32')\n"),
+    V('C19', 'jitter added to drawn values', CCF, "        np.random.shuffle(sampled_values)\n", "        sampled_values = sampled_values + np.random.randint(0, 2, size=len(sampled_values))\n        np.random.shuffle(sampled_values)\n"),
+    V('C19', 'random domain with replacement', CCF, "vec = np.random.choice(vec, size=cardinality, replace=False)", "vec = np.random.choice(vec, size=cardinality, replace=True)"),
+    V('C19', 'default domain one short', CCF, "vec = np.arange(low, low + cardinality, 1)", "vec = np.arange(low, low + cardinality - 1, 1)"),
+    V('C19', 'naive label with noise', GNF, "    target[target > 39] = 1\n", "    target[target > 39] = 1\n    flip = np.random.random(len(target)) < 0.01\n    target[flip] = 1 - target[flip]\n"),
+    V('C19', 'naive needle column 31', GNF, "    target = sample[:, 30]", "    target = sample[:, 31]"),
+    V('C19', 'csv with index column', 'outrank/task_generators.py', "dfx.to_csv(f'./{args.output_synthetic_df_name}/data.csv', index=False)", "dfx.to_csv(f'./{args.output_synthetic_df_name}/data.csv')"),
+    V('C19', 'twin: zeros allocation', CCF, "X = np.empty([n_features, n_samples], dtype='int32')", "X = np.zeros([n_features, n_samples], dtype='int32')", expect='clean'),
+    V('C19', 'twin: guard flipped', CCF, "if ensure_rep and len(vec) <= size:", "if ensure_rep and size >= len(vec):", expect='clean'),
+]
+
+# ---------------------------------------------------------------- C20
+VARIANTS += [
+    V('C20', 'F13 reintroduced: k-1 duplicate indices', CCF, "duplicated_ixs = np.arange(len(X[0]), (len(X[0]) + len(feature_indices)), 1)", "duplicated_ixs = np.arange(len(X[0]), (len(X[0]) + len(feature_indices) - 1), 1)"),
+    V('C20', 'correlated indices start one late', CCF, "correlated_ixs = np.arange(len(X[0]), (len(X[0]) + len(feature_indices)), 1)", "correlated_ixs = np.arange(len(X[0]) + 1, (len(X[0]) + len(feature_indices) + 1), 1)"),
+    V('C20', 'combination index off by one', CCF, "        combination_ix = len(X[0])\n", "        combination_ix = len(X[0]) - 1\n"),
+    V('C20', 'cot loses sign of r', CCF, "            corr = Y[:, 1] + (1 / np.tan(theta)) * Y[:, 0]", "            corr = Y[:, 1] + np.sqrt(r ** 2 / (1 - r ** 2)) * Y[:, 0]"),
+    V('C20', 'tan instead of cot', CCF, "            corr = Y[:, 1] + (1 / np.tan(theta)) * Y[:, 0]", "            corr = Y[:, 1] + np.tan(theta) * Y[:, 0]"),
+    V('C20', 'theta from arcsin', CCF, "            theta = np.arccos(r)", "            theta = np.arcsin(r)"),
+    V('C20', 'noise not orthogonalised', CCF, "            M_orthogonal = np.column_stack((M_centred[:, 0], orthogonal_projection))", "            M_orthogonal = np.column_stack((M_centred[:, 0], M_centred[:, 1]))"),
+    V('C20', 'duplicates of shifted values', CCF, "        selected_features = X[:, feature_indices]\n\n        self.dataset_info['duplicates']", "        selected_features = X[:, feature_indices] + 0 * X[:, [0]] + 1\n\n        self.dataset_info['duplicates']"),
+    V('C20', 'linear combination is the mean', CCF, "combination_function = lambda x: np.sum(x, axis=1)", "combination_function = lambda x: np.mean(x, axis=1)"),
+    V('C20', 'labels by >=', CCF, "                        y += (decision_boundary > p_point)", "                        y += (decision_boundary >= p_point)"),
+    V('C20', 'missing noise without copy', CCF, "            X_noise = np.copy(X)", "            X_noise = np.asarray(X, dtype=float)"),
+    V('C20', 'missing noise in place', CCF, "            X_noise = np.copy(X)", "            X_noise = X"),
+    V('C20', 'categorical noise sorts in place', CCF, "            X_sort = X[inds]\n", "            X_sort = X\n"),
+    V('C20', 'cells chosen with replacement', CCF, "                ixs = np.random.choice(n, n_missing, replace=False)", "                ixs = np.random.choice(n, n_missing, replace=True)"),
+    V('C20', 'noise amount rounds up', CCF, "            n_missing = int(n * p)", "            n_missing = int(n * p) + 1"),
+    V('C20', 'downsample ignores the class', CCF, "X_label = [X[i] for i in range(len(y)) if y[i] == label]", "X_label = [X[i] for i in range(len(y))]"),
+    V('C20', 'downsample n+1 rows', CCF, "                n_samples=n,\n", "                n_samples=n + 1,\n"),
+    V('C20', 'twin: hstack duplicates', CCF, "        return np.column_stack((X, selected_features))", "        return np.hstack((X, selected_features))", expect='clean'),
+]
